@@ -41,11 +41,11 @@ Section Top.
     - subst y'. exact E.
   Qed.
 
-  (* the match a search reports starts and ends at well-formed positions *)
+  (* the match a search reports starts and ends at well-formed positions, and so does every capture *)
   Theorem search_boundaries n :
     (forall p p', okp p -> ix_next_right_pos ix h p = Ok (Some p') -> okp p') -> al n ->
     forall fuel ngroups tries p p0 e gs, okp p ->
-      ir_search ix unicode utf16 h fuel n ngroups tries p = Some (Some (p0, e, gs)) -> okp p0 /\ okp e.
+      ir_search ix unicode utf16 h fuel n ngroups tries p = Some (Some (p0, e, gs)) -> okp p0 /\ okp e /\ gok okp gs.
   Proof.
     intros Hk5 Ha fuel ngroups. induction tries as [|t IH]; intros p p0 e gs Hp E; [discriminate|]. cbn [ir_search] in E.
     destruct (IR fuel n true (p, repeat gd_empty ngroups)) as [l|] eqn:El; [|discriminate].
@@ -53,7 +53,7 @@ Section Top.
     - destruct (ix_next_right_pos ix h p) as [e0|[p'|]] eqn:En; try discriminate. eapply IH; [eapply Hk5; eauto|exact E].
     - inversion E; subst. split; [exact Hp|].
       pose proof (closed_al ix unicode utf16 h okp fuel n true Ha (p0, repeat gd_empty ngroups) (y :: l) (conj Hp (gok_init ngroups)) El) as Hc.
-      inversion Hc as [|y0 l0 Hy _]; subst. exact (proj1 Hy).
+      inversion Hc as [|y0 l0 Hy _]; subst. split; [exact (proj1 Hy)|exact (proj2 Hy)].
   Qed.
 
   Lemma obindm_goal f fwd : forall ys, obindm (IR (S f) NGoal fwd) ys = Some ys.
